@@ -502,8 +502,22 @@ impl<C: BgpConfig + Send> Session<C> {
                 }
             }
             BgpMsg::Notification(m) => {
+                // RFC 4271 8.1.5: a NOTIFICATION with a version error is
+                // Event 24 (NotifMsgVerErr), any other one Event 25
+                // (NotifMsg).
+                let event = if matches!(
+                    m.details(),
+                    Details::OpenMessageError(
+                        OpenMessageSubcode::UnsupportedVersionNumber
+                    )
+                ) {
+                    Event::NotifMsgVerErr
+                } else {
+                    Event::NotifMsg
+                };
                 let tx = self.channel.clone();
                 let _ = tx.send(Message::NotificationMessage(m)).await;
+                self.handle_event(event).await?;
             }
             BgpMsg::RouteRefresh(_m) => {
                 debug!("got ROUTEREFRESH, not doing anything");
